@@ -206,6 +206,36 @@ func checkC02(x *X, c *Case, strict bool) *Outcome {
 			o.Viol = viol(pk, c, "match_value", d, describeRef(ref), describeResp(resp))
 			return o
 		}
+		// "however much ... memoised skipping preceded": with Memoize(true) blocks may be skipped,
+		// but every action that does run must see a context that the plain parse also produced
+		if !pk.Optimized && len(ref.Events) > 0 && memoFinding(x, ref, strict) == "" && ref.Stats.ZeroWidthIters == 0 {
+			mc := *c
+			mc.Opts.Memoize = true
+			_, mctx := runReal(x, pk, &mc, safetyBudget(ref))
+			o.Evals++
+			key := func(e vrt.Event) string {
+				return fmt.Sprintf("%d|%q|%d:%d(%d)|%s", e.ID, e.Text, e.Line, e.Col, e.Off, e.Labels)
+			}
+			plain := map[string]int{}
+			for _, e := range ref.Events {
+				if e.Kind == "act" {
+					plain[key(e)]++
+				}
+			}
+			for _, e := range mctx.Events {
+				if e.Kind != "act" {
+					continue
+				}
+				if plain[key(e)] == 0 {
+					o.Viol = viol(pk, &mc, "event_context_memoize", fmt.Sprintf("Memoize(true): action ran with a context the plain parse never produces: %s", e.String()), traceText(ref.Events), traceText(mctx.Events))
+					return o
+				}
+				plain[key(e)]--
+			}
+			if ref.Stats.MemoSensitive {
+				o.Tags = append(o.Tags, "memo_run_compared")
+			}
+		}
 	}
 	o.Observe = fmt.Sprintf("ok=%v events=%d first=%s", ref.Ok, len(ref.Events), firstEvent(ref.Events))
 	return o
